@@ -17,6 +17,8 @@ use tokio::io::AsyncWriteExt;
 /// shell command has): only the whole of it is the key
 const SECRET: &str = "c14-secret line one\nc14 second,line;three \n";
 /// pieces and spellings of the configured secret that must not work as keys
+/// a secret delivered through the environment that reads like a number in a non-canonical spelling
+const ENV_SECRET: &str = "0042";
 const SECRET_PARTS: [&str; 7] = ["c14-secret line one", "c14 second,line;three ", "", "c14-secret", "c14-secret line one\nc14 second,line;three", "c14-secret line one\n", "\n"];
 const ALLOWANCE: Duration = Duration::from_millis(1500);
 
@@ -117,13 +119,15 @@ fn spawn_from_files(conf: &Conf) -> App {
     let port = free_port();
     let dir = format!("{}/target/c14-files-{}-{port}", common::VERIF_ROOT, std::process::id());
     std::fs::create_dir_all(&dir).expect("config dir");
-    let with_env = conf.files == "yaml+env";
+    let with_env = conf.files == "yaml+env" || conf.files == "yaml+env-secret";
+    // the secret comes from the environment only, and looks like a number: it is text all the same
+    let env_secret = conf.files == "yaml+env-secret";
     let yaml = format!(
         "address: \"127.0.0.1:{port}\"\ntimeout: {}\nmax_packet_length: {}\nauth_cookie_expiry: {}\n{}{}adapters:\n  discovery:\n    fixed:\n      targets:\n      - identifier: \"c14-target\"\n        address: \"10.14.14.14:25565\"\n        meta: {{}}\n  authentication:\n    fixed:\n      profile:\n        id: \"00000000-0000-0000-0000-000000abcdef\"\n        name: \"Fixed_Profile\"\n        properties: []\n",
         if with_env { 60 } else { conf.timeout },
         conf.max_packet_length,
         conf.expiry,
-        if with_env { "auth_secret: \"a-secret-in-the-config-file-that-the-secret-file-overrides\"\n" } else { "" },
+        if with_env && !env_secret { "auth_secret: \"a-secret-in-the-config-file-that-the-secret-file-overrides\"\n" } else { "" },
         match conf.proxy.as_str() {
             "v1" => "proxy_protocol:\n  allow_v1: true\n  allow_v2: false\n",
             "v2" => "proxy_protocol:\n  allow_v1: false\n  allow_v2: true\n",
@@ -132,7 +136,9 @@ fn spawn_from_files(conf: &Conf) -> App {
         },
     );
     std::fs::write(format!("{dir}/config.yaml"), yaml).expect("write config");
-    std::fs::write(format!("{dir}/auth_secret"), SECRET).expect("write secret");
+    if !env_secret {
+        std::fs::write(format!("{dir}/auth_secret"), SECRET).expect("write secret");
+    }
     let exe = std::env::current_exe().expect("exe");
     let mut cmd = std::process::Command::new(exe);
     cmd.arg("C14-child-read").env("CONFIG_FILE", format!("{dir}/config.yaml")).env("AUTH_SECRET_FILE", format!("{dir}/auth_secret")).env_remove("ENV_PREFIX");
@@ -141,6 +147,9 @@ fn spawn_from_files(conf: &Conf) -> App {
     }
     if with_env {
         cmd.env("PASSAGE_TIMEOUT", conf.timeout.to_string());
+    }
+    if env_secret {
+        cmd.env("PASSAGE_AUTHSECRET", ENV_SECRET);
     }
     let child = cmd.stdout(std::process::Stdio::null()).stderr(std::process::Stdio::null()).spawn().expect("spawn child");
     let addr: SocketAddr = format!("127.0.0.1:{port}").parse().unwrap();
@@ -263,20 +272,27 @@ async fn cookie_cases(addr: SocketAddr, conf: &Conf, out: &Mutex<Vec<Viol>>) -> 
         // the cookie response frame (about 330 bytes) does not fit: nothing to judge here
         return 0;
     }
+    let configured: &str = if conf.files == "yaml+env-secret" { ENV_SECRET } else { SECRET };
     let mut cases: Vec<(&str, i64, &str, bool)> = if conf.expiry > u32::MAX as u64 {
-        vec![("fresh", 5, SECRET, true), ("old-but-within-a-huge-expiry", 1_000_000, SECRET, true), ("other-secret", 0, "another-secret", false)]
+        vec![("fresh", 5, configured, true), ("old-but-within-a-huge-expiry", 1_000_000, configured, true), ("other-secret", 0, "another-secret", false)]
     } else {
-        vec![("fresh", e - 2, SECRET, true), ("expired", e + 2, SECRET, false), ("other-secret", 0, "another-secret", false), ("very-old", e + 100_000, SECRET, false)]
+        vec![("fresh", e - 2, configured, true), ("expired", e + 2, configured, false), ("other-secret", 0, "another-secret", false), ("very-old", e + 100_000, configured, false)]
     };
+    if configured == ENV_SECRET {
+        // what a typed reading of the environment value would turn it into
+        for other in ["42", "42.0", "+42", "0x2a"] {
+            cases.push(("signed-with-a-number-the-secret-reads-as", e.min(5) - 1, other, false));
+        }
+    }
     for part in SECRET_PARTS {
         cases.push(("signed-with-a-part-of-the-secret", e.min(5) - 1, part, false));
     }
     // a history: a genuine cookie is honoured, then its tag comes back in front of another body
-    cases.push(("genuine-before-replay", e.min(5) - 1, SECRET, true));
-    cases.push(("replayed-tag-other-body", e.min(5) - 1, SECRET, false));
+    cases.push(("genuine-before-replay", e.min(5) - 1, configured, true));
+    cases.push(("replayed-tag-other-body", e.min(5) - 1, configured, false));
     if conf.timeout >= 4 && conf.expiry <= u32::MAX as u64 && conf.expiry >= 1 {
         // valid when the connection starts (one second left), expired when the client finally presents it
-        cases.push(("expires-during-stall", e - 1, SECRET, false));
+        cases.push(("expires-during-stall", e - 1, configured, false));
     }
     let mut genuine: Vec<u8> = vec![];
     for (name, age, secret, must_accept) in cases {
@@ -310,7 +326,7 @@ async fn cookie_cases(addr: SocketAddr, conf: &Conf, out: &Mutex<Vec<Viol>>) -> 
         if flag.is_none() || accepted != must_accept {
             out.lock().unwrap().push((
                 if flag.is_none() { format!("cookie-{name}-login-failed") } else { format!("cookie-{name}-{}", if accepted { "accepted" } else { "not-accepted" }) },
-                format!("auth_cookie_expiry = {e}: a cookie aged {age} s signed with {} was {} (flag {flag:?}, {:?})", if secret == SECRET { "the configured secret".to_string() } else { format!("another secret ({secret:?})") }, if accepted { "accepted" } else { "not accepted" }, o.error),
+                format!("auth_cookie_expiry = {e}: a cookie aged {age} s signed with {} was {} (flag {flag:?}, {:?})", if secret == configured { "the configured secret".to_string() } else { format!("another secret ({secret:?})") }, if accepted { "accepted" } else { "not accepted" }, o.error),
                 json!({"conf": conf, "case": "cookie", "name": name}),
             ));
         }
@@ -422,6 +438,37 @@ async fn deadline_case(addr: SocketAddr, conf: &Conf, behaviour: &str, out: &Mut
             c.login(&p, Stage::Connected, Stage::LoginSuccessReceived, &mut o).await;
             let _ = c.send(&codec::sb_login_ack()).await;
         }
+        "floods-ignorable-frames" => {
+            // logged in, never sends Client Information, but keeps the server busy: small plugin messages (which
+            // the configuration phase tolerates) as fast as the socket takes them, across the deadline
+            c.login(&p, Stage::Connected, Stage::LoginSuccessReceived, &mut o).await;
+            let _ = c.send(&codec::sb_login_ack()).await;
+            let frame = codec::frame(0x02, &common::refs::codec::W::new().string("a:b").done());
+            // (large bursts: the server's receive buffer must never run dry)
+            let burst: Vec<u8> = frame.iter().copied().cycle().take(frame.len() * 16_384).collect();
+            let mut writes = 0u64;
+            // (a write is never abandoned half-way: that would garble the stream and get the client thrown out for
+            // another reason; the whole flood is bounded instead)
+            let limit = (timeout + ALLOWANCE).saturating_sub(t0.elapsed());
+            let flood = async {
+                loop {
+                    if c.send(&burst).await.is_err() {
+                        break;
+                    }
+                    writes += 1;
+                    tokio::task::yield_now().await;
+                }
+            };
+            let closed = tokio::time::timeout(limit, flood).await.is_ok();
+            if !closed {
+                out.lock().unwrap().push((
+                    format!("deadline-not-enforced:{behaviour}"),
+                    format!("timeout = {} s: a client that floods the configuration phase with ignorable frames could still write {:?} after it connected ({writes} bursts)", conf.timeout, t0.elapsed()),
+                    json!({"conf": conf, "case": "deadline", "behaviour": behaviour}),
+                ));
+            }
+            return;
+        }
         other => common::machinery(&format!("behaviour {other}")),
     }
     // from here on the client only listens (and echoes keep-alives if it is in the configuration phase)
@@ -488,7 +535,7 @@ async fn futures_join_all<F: std::future::Future<Output = ()>>(futs: Vec<F>) {
 pub fn run(cli: Cli) -> ! {
     let rep = Report::new("C14", cli.tier, "exploration");
     let thorough = cli.tier.thorough();
-    let all_behaviours = ["silent", "one-byte-every-100ms", "stop-mid-frame", "stop-after-handshake", "stop-after-login-start", "stop-after-encryption-request", "stop-after-login-success", "login-ack-only"];
+    let all_behaviours = ["silent", "one-byte-every-100ms", "stop-mid-frame", "stop-after-handshake", "stop-after-login-start", "stop-after-encryption-request", "stop-after-login-success", "login-ack-only", "floods-ignorable-frames"];
     let confs: Vec<Conf> = if let Some(case) = &cli.replay {
         vec![serde_json::from_value(case["conf"].clone()).unwrap_or_else(|e| common::machinery(&format!("bad replay: {e}")))]
     } else if thorough {
@@ -512,6 +559,7 @@ pub fn run(cli: Cli) -> ! {
             Conf { max_packet_length: 2_000, expiry: 60, timeout: 1, proxy: "v1v2".into(), big_status: false, files: "yaml+env".into() },
             Conf { max_packet_length: 300, expiry: 1, timeout: 3, proxy: "v2".into(), big_status: false, files: "yaml".into() },
             Conf { max_packet_length: 10_000, expiry: 2, timeout: 2, proxy: String::new(), big_status: false, files: "yaml+env".into() },
+            Conf { max_packet_length: 1_500, expiry: 60, timeout: 2, proxy: String::new(), big_status: false, files: "yaml+env-secret".into() },
         ]
     } else {
         vec![
@@ -526,6 +574,7 @@ pub fn run(cli: Cli) -> ! {
             // the same limits read by Config::read() from a YAML file, a secret file and the environment
             Conf { max_packet_length: 1_200, expiry: 3, timeout: 2, proxy: String::new(), big_status: false, files: "yaml".into() },
             Conf { max_packet_length: 2_000, expiry: 60, timeout: 1, proxy: "v1v2".into(), big_status: false, files: "yaml+env".into() },
+            Conf { max_packet_length: 1_500, expiry: 60, timeout: 2, proxy: String::new(), big_status: false, files: "yaml+env-secret".into() },
         ]
     };
     let total = std::sync::atomic::AtomicU64::new(0);
@@ -567,7 +616,7 @@ pub fn run(cli: Cli) -> ! {
     rep.set("status_never_read_bytes_found_after_deadline", json!(totals));
     rep.set("status_answer_bytes", json!(BIG_STATUS));
     rep.set("exhaustive", json!(true));
-    rep.set("rule", json!("one child process running passage::start(config) per configuration (max_packet_length, auth_cookie_expiry, timeout; two of them read by Config::read() from a YAML file, a secret file and PASSAGE_TIMEOUT); per configuration: handshake frames of declared length max-1, max, max+1, max+50; cookies aged expiry-2 / expiry+2 / very old / signed with another secret / signed with each of 7 pieces of the configured secret (its lines, the empty key, the secret without its trailing line break), a genuine cookie followed by its tag in front of another body, and (timeout >= 4 s) a cookie with one second left that the client presents 2.2 s later; client behaviours silent, one byte every 100 ms, stopping mid-frame and after each protocol step, and (with PROXY protocol configured) a valid header sent only after 3/4 of the timeout, each required to be disconnected by timeout + 1.5 s; with a 24 MiB status answer, a client that requests it and reads nothing until timeout + 1.5 s must then find a truncated answer and the end of the stream; the process is stopped with SIGINT and must exit cleanly. Each connection is a distinct case."));
+    rep.set("rule", json!("one child process running passage::start(config) per configuration (max_packet_length, auth_cookie_expiry, timeout; three of them read by Config::read() from a YAML file, a secret file and PASSAGE_TIMEOUT, one with a number-like secret given in PASSAGE_AUTHSECRET only); per configuration: handshake frames of declared length max-1, max, max+1, max+50; cookies aged expiry-2 / expiry+2 / very old / signed with another secret / signed with each of 7 pieces of the configured secret (its lines, the empty key, the secret without its trailing line break), a genuine cookie followed by its tag in front of another body, and (timeout >= 4 s) a cookie with one second left that the client presents 2.2 s later; client behaviours silent, flooding the configuration phase with ignorable frames, one byte every 100 ms, stopping mid-frame and after each protocol step, and (with PROXY protocol configured) a valid header sent only after 3/4 of the timeout, each required to be disconnected by timeout + 1.5 s; with a 24 MiB status answer, a client that requests it and reads nothing until timeout + 1.5 s must then find a truncated answer and the end of the stream; the process is stopped with SIGINT and must exit cleanly. Each connection is a distinct case."));
     rep.sample(json!({"conf": confs[0], "case": "frame-length", "len": confs[0].max_packet_length + 1, "expect": "closed unanswered"}));
     rep.sample(json!({"conf": confs[confs.len() - 1], "case": "deadline", "behaviour": "stop-after-encryption-request", "expect": "closed by timeout + 1.5 s"}));
     rep.assume("real time: 'closed too late' uses a 1.5 s allowance; closing earlier is never a violation");
